@@ -76,6 +76,11 @@ PROPS = {
         "assumptions": [],
         "partial": ["existence of a three-square decomposition for every value 2 mod 4 (Legendre) is checked by computation for the table limit, not proved in general"],
     },
+    "C14": {
+        "suite": "C14", "ref_sample": 0, "trusted": CORE_TRUSTED + ["fxamacker/cbor + SHA-256 of the keyshare challenge input enters the model as an observed hash value"],
+        "assumptions": [],
+        "partial": ["acceptance of the merged proof list for secret = user share + server share is established by replay + oracle over all exchanges (algebraic completeness theorem pending, as for C04)"],
+    },
     "C15": {
         "suite": "C15",
         "mismatch_is_violation": True,   # the Coq definition is the property's reference
